@@ -158,7 +158,20 @@ type workerOut struct {
 	job    *vlib.Job
 }
 
+func knownClasses(prop string) []string {
+	var out []string
+	for _, k := range loadKnown() {
+		if k.Status == "known" && k.Property == prop {
+			out = append(out, k.Class)
+		}
+	}
+	return out
+}
+
 func runWorker(binary string, job *vlib.Job, tag string, hardTimeout time.Duration) workerOut {
+	if job.Tier != "replay" {
+		job.Known = knownClasses(job.Property)
+	}
 	jobPath := filepath.Join(workDir, "jobs", tag+".job.json")
 	job.Out = filepath.Join(workDir, "jobs", tag+".out.json")
 	job.Journal = filepath.Join(workDir, "jobs", tag+".journal.json")
@@ -301,7 +314,7 @@ func execute(plan *Plan, tier string, seed int64, replayFile, only string) int {
 			stageNotes = append(stageNotes, desc)
 			fmt.Println("stage:", desc)
 			total.Merge(stage)
-			if len(stage.Violations) > 0 {
+			if hasUnknown(plan.ID, stage.Violations) {
 				break
 			}
 			continue
@@ -352,7 +365,7 @@ func execute(plan *Plan, tier string, seed int64, replayFile, only string) int {
 			}
 		}
 		total.Merge(stage)
-		if len(stage.Violations) > 0 {
+		if hasUnknown(plan.ID, stage.Violations) {
 			break // first (fewest-deviation) counterexample is the one to report
 		}
 	}
@@ -417,6 +430,22 @@ func execute(plan *Plan, tier string, seed int64, replayFile, only string) int {
 	}
 	fmt.Printf("OK property=%s tier=%s evaluations=%d distinct=%d capped=%v wall=%.1fs\n", plan.ID, tier, total.Evaluations, total.DistinctCount(), total.Capped, time.Since(start).Seconds())
 	return 0
+}
+
+func hasUnknown(prop string, vs []vlib.Violation) bool {
+	known := knownClasses(prop)
+	for _, v := range vs {
+		k := false
+		for _, c := range known {
+			if c == v.Class {
+				k = true
+			}
+		}
+		if !k {
+			return true
+		}
+	}
+	return false
 }
 
 func firstLine(s string) string {
